@@ -13,3 +13,17 @@ Theorem C07_padding : forall c cleartext, (0 < c_bs c <= 256)%nat ->
     /\ ((length cleartext + N.to_nat p + 1) mod c_bs c = 0)%nat.
 Proof. exact sk_plaintext_spec. Qed.
 Print Assumptions C07_padding.
+
+(** The checksum of a protected datagram is integrity.compute(sk_a, .) over ALL octets before it (IKE header
+    through the end of the ciphertext), and the header's length field - inside that MACed prefix - is the total
+    length of the datagram.  ([28 + icv <= length d] always holds: header and checksum are part of d.) *)
+Theorem C07_icv_is_mac_over_prefix : forall enc mac cr m d,
+  (forall k x, length (mac k x) = c_icv cr) -> (0 < c_icv cr)%nat ->
+  encode enc mac (Some cr) m = Ok d ->
+  slice_from_neg d (c_icv cr) = mac (c_sk_a cr) (slice_to_neg d (c_icv cr))
+  /\ ((28 + c_icv cr <= length d)%nat -> be_decode (slice d 24 28) = N.of_nat (length d)).
+Proof. exact encode_icv. Qed.
+Print Assumptions C07_icv_is_mac_over_prefix.
+
+(* Not reached (DESIGN section 6): C07_roundtrip, C07_accept_iff / C07_any_change_is_forgery as theorems; they
+   are covered by the correspondence (toy primitives) and by the oracle on the real AES-CBC/HMAC classes. *)
